@@ -53,6 +53,20 @@ def handleTrace (j : Json) : Json :=
     let ops := (getArr j "ops").filterMap asOp
     obj [("sync_ordered", Json.bool (syncOrdered ops)), ("n", jNat ops.length),
          ("visible", Json.arr ((ops.zipIdx.filter (fun (o, _) => !o.hiddenOnly)).map (fun (_, i) => jNat i)).toArray)]
+  | "apply" =>
+    -- {"fs":[[path,"dir"|"file"],…],"ops":[…],"queries":[path,…]} → the node at each queried path after the operations
+    let entries : List (FPath × Node) := (getArr j "fs").filterMap (fun e => match e with
+      | Json.arr a => some (asPath (a.getD 0 Json.null), if (a.getD 1 Json.null) == Json.str "dir" then Node.dir else Node.file true)
+      | _ => none)
+    let fs0 : FS := fun q => (entries.find? (fun e => e.1 == q)).map (·.2)
+    let ops := (getArr j "ops").filterMap asOp
+    let fs1 := applyAll fs0 ops
+    let node (q : FPath) : Json := match fs1 q with
+      | none => Json.null
+      | some .dir => Json.str "dir"
+      | some (.file _) => Json.str "file"
+    obj [("nodes", Json.arr ((getArr j "queries").map (fun q => node (asPath q))).toArray),
+         ("hidden", Json.arr ((getArr j "queries").map (fun q => Json.bool (hidden (asPath q)))).toArray)]
   | _ => obj [("error", Json.str "bad-op")]
 
 end Driver
